@@ -20,15 +20,23 @@ for m in sorted(glob.glob(os.path.join(V, "seeded", "*", "meta.json"))):
     j = json.load(open(m)); name = os.path.basename(os.path.dirname(m))
     seed.append("| seeded/%s | %s | %s | %s | %s |" % (name, j["property"], j["needs_to_manifest"].replace("|", "\\|"), "yes" if j.get("detected") else "**no** (%s)" % j.get("miss_reason", "see meta.json"),
                                                        ", ".join("`%s`" % s.replace("|", "\\|") for s in j["check_run"].get("signatures_seen", [])[:3])))
+miss = ["| seeded change | why the check was blind, and what was added (from its meta.json `history`) |", "|---|---|"]
+def skey(m): n = os.path.basename(os.path.dirname(m)); a, b = n.split("-"); return (a, int(b))
+nmiss = 0
+for m in sorted(glob.glob(os.path.join(V, "seeded", "*", "meta.json")), key=skey):
+    j = json.load(open(m)); name = os.path.basename(os.path.dirname(m))
+    if "history" in j or not j.get("detected"):
+        nmiss += 1
+        miss.append("| seeded/%s | %s |" % (name, (j.get("history") or ("**still missed**: " + j.get("miss_reason", "see meta.json"))).replace("|", "\\|")))
 mut = {}
 for m in sorted(glob.glob(os.path.join(V, "mutants", "*.patch"))):
     n = os.path.basename(m)[:-6]; mut.setdefault(n.split("_")[0], []).append(n)
 mt = ["| property | hand-made mutants and reverse-of-fix patches (mutants/) |", "|---|---|"] + ["| %s | %s |" % (p, ", ".join(v)) for p, v in sorted(mut.items())]
 s = open(os.path.join(V, "DESIGN.md")).read()
-for tag, lines in (("FIXED", fixed), ("KNOWN", known), ("SEEDED", seed), ("MUTANTS", mt)):
+for tag, lines in (("FIXED", fixed), ("KNOWN", known), ("SEEDED", seed), ("MISSES", miss), ("MUTANTS", mt)):
     pat = re.compile(r"<!-- GEN:%s -->.*?<!-- /GEN:%s -->" % (tag, tag), re.S)
     block = "<!-- GEN:%s -->\n%s\n<!-- /GEN:%s -->" % (tag, "\n".join(lines), tag)
     if pat.search(s): s = pat.sub(lambda m: block, s)
     else: print("marker missing:", tag)
 open(os.path.join(V, "DESIGN.md"), "w").write(s)
-print("tables regenerated: fixed=%d known=%d seeded=%d" % (len(fixed) - 2, len(known) - 2, len(seed) - 2))
+print("tables regenerated: fixed=%d known=%d seeded=%d (missed at first: %d)" % (len(fixed) - 2, len(known) - 2, len(seed) - 2, nmiss))
